@@ -17,6 +17,7 @@ def obligations(chk):
     res = {}
 
     def run_all(it):
+        res = {}          # per path (a shared holder would mix the values of different paths)
         it.ctx.assume(z3.And(r > 0, r0 > 0, L0 > 0))
         res["D"] = it.call_repo(SC, "structure_function_vk", [r, r0, L0])
         res["Dk"] = it.call_repo(SC, "structure_function_kolmogorov", [r, r0])
@@ -26,9 +27,10 @@ def obligations(chk):
         res["C"] = it.call_repo(TURB, "phase_covariance", [r - z3.RealVal("1/" + "1" + "0" * 40), r0, L0])
         res["klD"] = it.call_repo(KL, "stf_vonKarman", [r, L0])
         res["klDk"] = it.call_repo(KL, "stf_kolmogorov", [r])
-        return it
+        return res
 
     def post_all(pr):
+        res = pr.value
         goals = []
         D, Dk, C, klD, klDk = (zr(res[k]) for k in ("D", "Dk", "C", "klD", "klDk"))
         # opaque atoms: the Bessel factor, the (r/L0)^(5/6) factor, the (L0/r0)^(5/3) amplitude
